@@ -235,7 +235,11 @@ func (w *World) gaugesOracle(prop string, converse bool) []Violation {
 				got := DumpSnapshot(ss, w.probes)
 				ss.Close()
 				if class, detail := DiffDumps(exp, got, "Store.Snapshot"); class != "" {
-					out = append(out, Violation{Prop: prop, Sig: "zero-gauges-but-store-stale:" + class + "|store|" + w.gaugeTrigger(),
+					sig := "zero-gauges-but-store-stale:" + class + "|store|any"
+					if w.gaugeTrigger() != "any" {
+						sig = "zero-gauges-but-store-stale|store|" + w.gaugeTrigger()
+					}
+					out = append(out, Violation{Prop: prop, Sig: sig,
 						Msg: fmt.Sprintf("CurDirtyOps/Bytes/Segments are all zero but the store's own snapshot differs from the reference: %s\n  expected %s\n  observed %s\n  in gate=%v sections=%v", detail, exp, got, w.inGate, w.Heights())})
 					return out
 				}
@@ -285,32 +289,14 @@ func opsCount(b *BatchSpec) int {
 	return n
 }
 
-// gaugeTrigger narrows C20 signatures: "only-child-create-delete" when every batch that is not yet in the
-// lower level consists solely of child collection creations / deletions (no key operation at all).
+// gaugeTrigger narrows C20 signatures: "nothing-countable-dirty" when no dirty section (top, mid, base,
+// child stacks included) holds a single operation - the only unpersisted changes are child collections
+// created empty or deleted, for which the gauges (operations, bytes, segments) have nothing to count.
 func (w *World) gaugeTrigger() string {
-	p := -1
-	if w.cfg.Backing == "store" {
-		p, _ = w.storePrefix()
-	} else {
-		for i := len(w.models) - 1; i >= 0; i-- {
-			if mapsEqual(w.ll, w.models[i].KV) {
-				p = i
-				break
-			}
-		}
+	if w.coll != nil && !w.closedColl && moss.VerifDirtyEmpty(w.coll) {
+		return "nothing-countable-dirty"
 	}
-	if p < 0 || p > len(w.specs) {
-		return "any"
-	}
-	if p == len(w.specs) {
-		return "any"
-	}
-	for _, b := range w.specs[p:] {
-		if opsCount(b) > 0 {
-			return "any"
-		}
-	}
-	return "only-child-create-delete"
+	return "any"
 }
 
 // reopenCopyOracle opens a copy of the store directory taken right now and compares it with exp.
